@@ -1498,6 +1498,22 @@ class BaseInterpreter(Generic[TContext, TEvent]):
             )
         registry[system_id] = actor
 
+    def _drop_own_system_ids(self) -> None:
+        """Drops every `system_id` that points at this actor from the registry.
+
+        Called when a child actor stops. `stopChild` removed only the entry
+        of the actor it was given, so the `system_id` of anything that actor
+        had spawned itself stayed registered - pointing at a stopped actor
+        that silently swallowed whatever was sent to it. Every stopping actor
+        now removes its own entries, so a whole subtree leaves the registry.
+        """
+        if self.parent is None:
+            return
+        registry = self._system_registry()
+        for system_id, candidate in list(registry.items()):
+            if candidate is self:
+                del registry[system_id]
+
     def _resolve_delay(self, spec: Any, event: Any) -> Optional[float]:
         """Resolves a delay specification to milliseconds.
 
